@@ -259,3 +259,73 @@ Theorem C16_float_ops_partial : forall D a b, 0 < D ->
      no_rel (add_q D a (neg_q D a)) = true /\ no_rel (sub_q D a a) = true).
 Proof. exact ops_q_laws. Qed.
 Print Assumptions C16_float_ops_partial.
+
+(* ======== model <-> code tie by TRANSLATION: gen/RdMethodsGen.v is regenerated from
+   /repo/src/dateutil/relativedelta.py and _common.py on every run by harness/gen_rd_methods.py
+   (fail-closed Python-ast translator); the generated definitions equal the hand model used by all
+   theorems above, for ALL inputs, and never raise AttributeError.  (Required here, after the
+   theorems about the hand model, so that a source change that breaks the translation leaves those
+   counted as discharged and only the C16_gen_* obligations broken.) *)
+From V Require Import rd.RdGenBase gen.RdMethodsGen rd.RdGenThm.
+
+Theorem C16_gen_sign : forall x, gen_sign x = sgn x.
+Proof. exact gen_sign_is_sgn. Qed.
+Print Assumptions C16_gen_sign.
+
+Theorem C16_gen_fix : forall o, gen_fix o = GOk (obj_of_rd (fix_rd (rd_of_obj o))).
+Proof. exact gen_fix_correct. Qed.
+Print Assumptions C16_gen_fix.
+
+Theorem C16_gen_set_months : forall o m,
+  gen_set_months o m = GOk (obj_with_flag (set_months (rd_of_obj o) m) (o_has_time o)).
+Proof. exact gen_set_months_correct. Qed.
+Print Assumptions C16_gen_set_months.
+
+Theorem C16_gen_neg : forall o, gen_neg o = GOk (obj_of_rd (neg (rd_of_obj o))).
+Proof. exact gen_neg_correct. Qed.
+Print Assumptions C16_gen_neg.
+
+Theorem C16_gen_abs : forall o, gen_abs o = GOk (obj_of_rd (abs_rd (rd_of_obj o))).
+Proof. exact gen_abs_correct. Qed.
+Print Assumptions C16_gen_abs.
+
+Theorem C16_gen_add : forall a b, gen_add a b = GOk (obj_of_rd (add_rd (rd_of_obj a) (rd_of_obj b))).
+Proof. exact gen_add_correct. Qed.
+Print Assumptions C16_gen_add.
+
+Theorem C16_gen_sub : forall a b, gen_sub a b = GOk (obj_of_rd (sub_rd (rd_of_obj a) (rd_of_obj b))).
+Proof. exact gen_sub_correct. Qed.
+Print Assumptions C16_gen_sub.
+
+Theorem C16_gen_mul : forall o k, gen_mul o k = GOk (obj_of_rd (mul_int (rd_of_obj o) k)).
+Proof. exact gen_mul_correct. Qed.
+Print Assumptions C16_gen_mul.
+
+Theorem C16_gen_bool : forall o, gen_bool o = GOk (rd_bool (rd_of_obj o)).
+Proof. exact gen_bool_correct. Qed.
+Print Assumptions C16_gen_bool.
+
+Theorem C16_gen_eq : forall a b, gen_eq a b = GOk (eqb (rd_of_obj a) (rd_of_obj b)).
+Proof. exact gen_eq_correct. Qed.
+Print Assumptions C16_gen_eq.
+
+Theorem C16_gen_hash : forall o, gen_hash o = GOk (tuple_of_key (hash_key (rd_of_obj o))).
+Proof. exact gen_hash_correct. Qed.
+Print Assumptions C16_gen_hash.
+
+Theorem C16_gen_hash_key_inj : forall k k', tuple_of_key k = tuple_of_key k' -> k = k'.
+Proof. exact tuple_of_key_inj. Qed.
+Print Assumptions C16_gen_hash_key_inj.
+
+(* _common.weekday: == is exactly "same (weekday, n)", and it hashes that pair *)
+Theorem C16_gen_weekday_eq : forall a b, gen_wd_eq a b = GOk true <-> a = b.
+Proof. exact gen_wd_eq_correct. Qed.
+Print Assumptions C16_gen_weekday_eq.
+
+Theorem C16_gen_weekday_eq_total : forall a b, exists r, gen_wd_eq a b = GOk r.
+Proof. exact gen_wd_eq_total. Qed.
+Print Assumptions C16_gen_weekday_eq_total.
+
+Theorem C16_gen_weekday_hash : forall a, gen_wd_hash a = GOk a.
+Proof. exact gen_wd_hash_correct. Qed.
+Print Assumptions C16_gen_weekday_hash.
